@@ -51,10 +51,20 @@ func c09In(list []string, s string) bool {
 	return false
 }
 
+// c09Known: status codes registered with IANA (HTTP Status Code Registry; 306 is "unused"), typed in as ranges.
+func c09Known(s int) bool {
+	switch {
+	case 100 <= s && s <= 103, 200 <= s && s <= 208, s == 226, 300 <= s && s <= 305, s == 307, s == 308,
+		400 <= s && s <= 418, 421 <= s && s <= 426, s == 428, s == 429, s == 431, s == 451,
+		500 <= s && s <= 508, s == 510, s == 511:
+		return true
+	}
+	return false
+}
+
 // c09Storable: RFC 7234 section 3 as enumerated by the property (b3).
 func c09Storable(status int, cc []string, hasExpires bool) bool {
-	known := map[int]bool{100: true, 101: true, 200: true, 201: true, 202: true, 203: true, 204: true, 206: true, 300: true, 301: true, 302: true, 304: true, 307: true, 308: true, 400: true, 401: true, 403: true, 404: true, 405: true, 410: true, 414: true, 418: true, 451: true, 500: true, 501: true, 503: true}
-	if !known[status] {
+	if !c09Known(status) {
 		return false
 	}
 	has := func(d string) bool { return c09In(cc, d) }
@@ -78,7 +88,7 @@ func c09Storable(status int, cc []string, hasExpires bool) bool {
 // lifetime 604800 vs 604801 s and t at date-1, date, expires, expires+1; method {GET,HEAD,POST,"get"} (b1/b2); a request
 // header that is stateful (every name of the draft's list, EVERY letter's case symbolic) or harmless; a response
 // header that is uncached/stateful (every name of the draft's 19, every letter's case symbolic) or harmless;
-// b3 cacheability: Cache-Control from 12 directive sets x Expires present/absent x status from {200,201,302,404,418,599};
+// b3 cacheability: Cache-Control from 12 directive sets x Expires present/absent x status from the 11 cacheable-by-default codes + {201,302,303,418,500,306,599} (thorough: every status 100..599 against the IANA registry);
 // Content-Type present/absent; integrity parameter right/wrong; signature bytes intact/flipped; payload intact/flipped.
 func VH_C09_Policy() {
 	vh.MustReach("accept", "reject")
@@ -154,7 +164,13 @@ func VH_C09_Policy() {
 			respH.Set("Expires", "Thu, 01 Dec 1994 16:00:00 GMT")
 			hasExpires = true
 		}
-		status = []int{200, 201, 302, 404, 418, 599}[vh.Choose(6)]
+		if vh.Tier() == 1 {
+			status = 100 + vh.Choose(500) // every status 100..599
+		} else {
+			// the 11 cacheable-by-default codes, understood-but-not-default ones, unassigned ones
+			sts := []int{200, 203, 204, 206, 300, 301, 404, 405, 410, 414, 501, 201, 302, 303, 418, 500, 306, 599}
+			status = sts[vh.Choose(len(sts))]
+		}
 	case 6:
 		delete(respH, "Content-Type")
 		hasCT = false
